@@ -628,6 +628,11 @@ func handleInputStream(s *Session, handler Handler) (err error) {
 		id:          id,
 	}
 	if err := handler.HandleXMPP(rw, &start); err != nil {
+		if err == io.EOF {
+			// Only the end of the input stream itself may end the session
+			// silently; a handler that ran out of tokens has failed.
+			err = io.ErrUnexpectedEOF
+		}
 		return err
 	}
 
